@@ -11,6 +11,7 @@ import (
 	"go/types"
 	"sort"
 	"strings"
+	"time"
 
 	"golang.org/x/tools/go/ast/astutil"
 	"golang.org/x/tools/go/ssa"
@@ -69,18 +70,18 @@ func refObj(v Value) *Term {
 }
 
 type Frame struct {
-	fn     *ssa.Function
-	env    map[ssa.Value]Value
-	block  *ssa.BasicBlock
-	prev   *ssa.BasicBlock
-	ip     int
-	call   ssa.CallInstruction // in the caller (nil for the top frame)
-	pre    *Snapshot
-	active map[*ssa.BasicBlock]*activeLoop
-	visits map[*ssa.BasicBlock]int
-	params map[string]Value
-	lets   map[string]Value
-	defers []deferred
+	fn       *ssa.Function
+	env      map[ssa.Value]Value
+	block    *ssa.BasicBlock
+	prev     *ssa.BasicBlock
+	ip       int
+	call     ssa.CallInstruction // in the caller (nil for the top frame)
+	pre      *Snapshot
+	active   map[*ssa.BasicBlock]*activeLoop
+	visits   map[*ssa.BasicBlock]int
+	params   map[string]Value
+	lets     map[string]Value
+	defers   []deferred
 	contract *Contract
 	inlName  string
 }
@@ -113,12 +114,13 @@ type State struct {
 }
 
 type recorder struct {
-	targets map[string]map[*Term]bool // heap -> obj terms
-	nonpos  map[string]map[*Term]bool // heap -> obj terms known to be nil/fresh (<= 0) when written
-	negonly map[string]bool           // heaps whose loop-variant targets are all nil/fresh objects
-	whole   map[string]bool
-	all     bool
-	phiBad  map[*ssa.Phi]bool // slice/pointer phis whose object changes around the loop
+	targets    map[string]map[*Term]bool // heap -> obj terms
+	nonpos     map[string]map[*Term]bool // heap -> obj terms known to be nil/fresh (<= 0) when written
+	negonly    map[string]bool           // heaps whose loop-variant targets are all nil/fresh objects
+	freshWhole map[string]bool           // heaps havocked by a callee that writes only fresh memory
+	whole      map[string]bool
+	all        bool
+	phiBad     map[*ssa.Phi]bool // slice/pointer phis whose object changes around the loop
 }
 
 func (st *State) frameTop() *Frame    { return st.frames[len(st.frames)-1] }
@@ -225,6 +227,9 @@ type Exec struct {
 	globalsSeen     map[string]*Term
 	epoch           int
 	usePow2         bool
+	deadline        time.Time
+	noObjSign       bool    // symbolic values created now may denote fresh (negative-id) objects
+	allocFloor      int64   // ... but only those allocated so far: ids >= this value
 	lemmaFacts      []*Term // instances of proved lemmas met while instantiating another lemma
 	curCall         ssa.Value
 	usedLemmas      map[string]bool
@@ -233,8 +238,8 @@ type Exec struct {
 	qn              int
 	usedSpecFns     map[string]bool
 
-	useBitAxioms    map[string]bool
-	panics          []*State
+	useBitAxioms map[string]bool
+	panics       []*State
 }
 
 type callName struct {
@@ -373,7 +378,6 @@ func (x *Exec) oblName(st *State, kind, detail string, instr ssa.Instruction) st
 	}
 	return name
 }
-
 
 func (x *Exec) ordCounter(fn *ssa.Function, base string, instr ssa.Instruction) int {
 	// stable ordinal: position of instr in the list of instructions registered under base,
@@ -531,6 +535,10 @@ func (x *Exec) runPath(st *State) {
 
 func (x *Exec) countPath() bool {
 	x.paths++
+	if !x.deadline.IsZero() && time.Now().After(x.deadline) {
+		x.fail("%s: symbolic execution exceeded its time budget (path explosion?)", FuncKey(x.fn))
+		return false
+	}
 	if x.paths > x.maxPaths {
 		x.fail("%s: path cap %d exceeded", FuncKey(x.fn), x.maxPaths)
 		return false
@@ -687,7 +695,10 @@ func (x *Exec) havocLoop(st *State, fr *Frame, loop *Loop, phis []*ssa.Phi, rec 
 		if name == "" {
 			name = p.Name()
 		}
+		x.noObjSign = true
+		x.allocFloor = -(1 << 60) // loop-carried references may denote objects allocated in earlier iterations
 		nv := x.symbolic(p.Type(), fmt.Sprintf("%s@L%d", name, loop.Ord), &facts)
+		x.noObjSign = false
 		if rec != nil && !rec.phiBad[p] {
 			nv = keepObj(fr.env[p], nv)
 		}
@@ -750,7 +761,6 @@ func (x *Exec) havocLoop(st *State, fr *Frame, loop *Loop, phis []*ssa.Phi, rec 
 		st.dirty[h] = true
 	}
 }
-
 
 func (st *State) record(heap string, obj *Term) {
 	if st.rec == nil {
